@@ -30,6 +30,9 @@ func c10Scenarios(thorough bool) []*scenario {
 				if hk == "hang" && k == 2 && !thorough {
 					continue
 				}
+				if k == 2 && !thorough && (up == "remote-4xx" || up == "remote-unreachable" || up == "remote-ok") {
+					continue // the K=2 remote variants differ from K=1 only in queue depth: thorough tier
+				}
 				// three clients: a writer, a login of the upgradeable user, a mixed client
 				cl := [][]cop{
 					{{Kind: "update", User: "v", Pw: "n1"}},
@@ -47,6 +50,9 @@ func c10Scenarios(thorough bool) []*scenario {
 			}
 		}
 		// management mix
+		if k == 2 && !thorough {
+			continue
+		}
 		out = append(out, &scenario{Name: fmt.Sprintf("scaled-k%d-mgmt-local", k), Upgrades: "local", CapLimit: k, Default: 1, Users: stdUsers, Clients: [][]cop{
 			{{Kind: "add", User: "w", Pw: "wpw"}, {Kind: "list"}},
 			{{Kind: "setadmin", User: "v", Admin: true}, {Kind: "remove", User: "v"}},
